@@ -206,7 +206,11 @@ def MState.onRequest (m : MState) (c : Nat) (r : Req) (ds : List Delivery) (outc
           | some (.vikjaState acts) =>
             if !acts.isPerm s'.actions then
               let d := (flat s!"handed {reprStr acts} reference {reprStr s'.actions}")
-              ((m.bad "C16" "newcomer-actions" d).bad "C01" "newcomer-actions" d).bad "C06" "newcomer-actions" d
+              let m := ((m.bad "C16" "newcomer-actions" d).bad "C01" "newcomer-actions" d).bad "C06" "newcomer-actions" d
+              -- an action this session never had but another session has: state crossed a session boundary
+              if acts.any fun a => !s'.actions.contains a && m.sessions.any fun o => o.uuid != uuid && o.actions.contains a then
+                m.bad "C03" "foreign-state-handed-to-newcomer" d
+              else m
             else m
           | _ => m.bad "C16" "no-vikja-state" "successful join without vikja state"
         else m
@@ -215,7 +219,10 @@ def MState.onRequest (m : MState) (c : Nat) (r : Req) (ds : List Delivery) (outc
           | some (.odalState as) =>
             if !as.isPerm s'.assets then
               let d := (flat s!"handed {reprStr as} reference {reprStr s'.assets}")
-              ((m.bad "C16" "newcomer-assets" d).bad "C01" "newcomer-assets" d).bad "C06" "newcomer-assets" d
+              let m := ((m.bad "C16" "newcomer-assets" d).bad "C01" "newcomer-assets" d).bad "C06" "newcomer-assets" d
+              if as.any fun a => !s'.assets.contains a && m.sessions.any fun o => o.uuid != uuid && o.assets.contains a then
+                m.bad "C03" "foreign-state-handed-to-newcomer" d
+              else m
             else m
           | _ => m.bad "C16" "no-odal-state" "successful join without odal state"
         else m
